@@ -358,6 +358,128 @@ class World:
             a.close()
 
 
+def is_secop_port(port):
+    try:
+        c = socket.create_connection(('127.0.0.1', port), timeout=2)
+    except OSError:
+        return False
+    try:
+        c.sendall(b'*IDN?\n')
+        return c.recv(200).startswith(b'ISSE')
+    except OSError:
+        return False
+    finally:
+        c.close()
+
+
+def run_server_restart(w, r, rng):
+    """the real frappy.server.Server with a main and a secondary tcp interface and its own discovery responder: after a
+    restart in which the secondary interface can not be bound again (somebody else took the port), every answer to a
+    discovery request still carries a port the node really listens on"""
+    import tempfile
+    import shutil
+    from pathlib import Path
+    import frappy.lib
+    from frappy.server import Server
+    tmp = Path(tempfile.mkdtemp(prefix='c19srv-'))
+    socks = [socket.socket() for _ in range(2)]
+    for s_ in socks:
+        s_.bind(('127.0.0.1', 0))
+    port1, port2 = [s_.getsockname()[1] for s_ in socks]
+    for s_ in socks:
+        s_.close()
+    (tmp / 'c19node_cfg.py').write_text(f"Node('c19.restart', 'restarting node', 'tcp://{port1}', secondary=['tcp://{port2}'])\n"
+                                        "Mod('foo', 'frappy.modules.Readable', 'a readable', value=5)\n")
+    gc = frappy.lib.generalConfig
+    saved = gc._config
+    gc.testinit(confdir=[tmp], piddir=tmp, logdir=tmp)
+    blockers = []
+
+    class Srv(Server):
+        def restart_hook(self):
+            # somebody else grabs the secondary port before the node binds it again
+            b_ = socket.socket()
+            b_.setsockopt(socket.SOL_SOCKET, socket.SO_REUSEADDR, 1)
+            try:
+                b_.bind(('', port2))
+                b_.listen(1)
+                blockers.append(b_)
+            except OSError:
+                b_.close()
+
+    def ask():
+        a = socket.socket(socket.AF_INET, socket.SOCK_DGRAM)
+        a.settimeout(1.0)
+        ports = []
+        try:
+            a.sendto(b'{"SECoP": "discover"}', ('127.0.0.1', w.port))
+            while True:
+                doc = json.loads(a.recvfrom(2048)[0].decode('utf-8'))
+                ports.append(doc.get('port'))
+                a.settimeout(0.3)
+        except (socket.timeout, OSError, ValueError):
+            pass
+        finally:
+            a.close()
+        return ports
+
+    def wait_for(cond, timeout):
+        end = time.time() + timeout
+        while time.time() < end:
+            if cond():
+                return True
+            time.sleep(0.1)
+        return False
+    import logging
+    log = logging.getLogger('c19srv')
+    log.setLevel(logging.CRITICAL)
+    srv = Srv('c19node', log)
+    th = threading.Thread(target=srv.run, daemon=True)
+    th.start()
+    case = {'sub': 'server-restart', 'ports': [port1, port2]}
+    try:
+        if not wait_for(lambda: getattr(srv, 'discovery', None) is not None and is_secop_port(port1) and is_secop_port(port2), 30):
+            r.inconclusive.append('server-restart phase: the node did not come up with both interfaces')
+            return
+        first = srv.discovery
+        ports = ask()
+        r.count('server_discovery_answers_checked', len(ports))
+        bad = [p_ for p_ in ports if not is_secop_port(p_)]
+        if bad or not ports:
+            r.violation('C19/server/announced-port-not-listening/fresh-node', f'answers carry {ports}, not listening: {bad}', case)
+            return
+        srv.restart()
+        if not wait_for(lambda: srv.discovery is not first and is_secop_port(port1), 60):
+            r.inconclusive.append('server-restart phase: the node did not come back after the restart')
+            return
+        time.sleep(0.5)
+        for b_ in blockers:
+            b_.close()
+        r.count('server_restarts')
+        if blockers and not is_secop_port(port2):
+            r.count('server_restarts_with_a_lost_interface')
+        seen = []
+        for _ in range(6):       # (several requests: more than one responder may be bound to the port)
+            seen += ask()
+        r.count('server_discovery_answers_checked', len(seen))
+        bad = sorted({p_ for p_ in seen if not is_secop_port(p_)})
+        if bad:
+            r.violation('C19/server/announced-port-not-listening/after-restart', f'after the restart (secondary interface on port {port2} could not be bound again) '
+                        f'discovery requests are answered with the ports {sorted(set(seen))}; not listening: {bad}', case)
+        elif not seen:
+            r.violation('C19/server/no-answer-after-restart', 'no answer to discovery requests after the restart', case)
+    finally:
+        try:
+            srv.shutdown()
+        except Exception:
+            pass
+        th.join(15)
+        for b_ in blockers:
+            b_.close()
+        gc._config = saved
+        shutil.rmtree(tmp, ignore_errors=True)
+
+
 def run_shard(shard):
     r = rec.Recorder(shard)
     rng = random.Random(f'C19/{shard["seed"]}/{shard["idx"]}')
@@ -367,6 +489,8 @@ def run_shard(shard):
     w.run_responder(rng, shard['n_dg'])
     if shard['idx'] == 0:
         w.run_tcp()
+    if shard['idx'] == 1:
+        run_server_restart(w, r, rng)
     return r.result()
 
 
